@@ -1,6 +1,22 @@
 ---------------------------- MODULE DomTreeGen ----------------------------
-(* Binder T for DomTree: one JSON line per generated transition
-   <<projection before, operation record, projection after>>.  Configuration only. *)
+(* Binder T for DomTree (state injection): a BUILD phase enumerates every tree that creation,
+   legal appendChild and legal setAttributeNode calls can produce within the id bound; from every
+   such tree every operation of the specification (legal or not) is taken once as a FINAL step,
+   and one JSON line <<projection before, operation record, projection after>> is printed for it.
+   The harness builds `before` through the public API, applies the operation and compares. *)
 EXTENDS DomTree, Json
-EmitT == PrintT(ToJson(<<Proj, last', ProjNext>>))
+VARIABLE phase
+GInit == Init /\ phase = "build"
+BuildNext ==
+    \/ \E d \in Docs, nm \in Names : CreateElement(d, nm) \/ CreateAttribute(d, nm)
+    \/ \E d \in Docs, s \in Strs : CreateText(d, s) \/ CreateComment(d, s) \/ CreateCData(d, s)
+    \/ \E d \in Docs : CreateFragment(d) \/ CreatePI(d, NameSeq[1], <<>>)
+    \/ \E p \in Live, c \in Live : kind[p] \in ParentKinds /\ parent[c] = 0 /\ kind[c] # "frag" /\ InsErrs(p, c, 0) = {} /\ AppendChild(p, c)
+    \/ \E e \in Live, a \in Live : kind[e] = "elem" /\ kind[a] = "attr" /\ ownerEl[a] = 0 /\ AttrByName(e, name[a]) = 0 /\ SetAttributeNode(e, a)
+GNext == /\ phase = "build"
+         /\ \/ BuildNext /\ last'.res = "ok" /\ phase' = "build" /\ nops' = nops
+            \/ OpNext /\ phase' = "done" /\ nops' = nops + 1
+GSpec == GInit /\ [][GNext]_<<vars, phase>>
+EmitT == phase' = "done" => PrintT(ToJson(<<Proj, last', ProjNext>>))
+GView == <<tree, phase>>
 =============================================================================
